@@ -88,6 +88,17 @@ claim("C03", "exploration",
       "plain() is an independent transcription of the statement; two-hop chains are not generated.",
       "DESIGN.md §4 C03")
 
+claim("C09", "exploration",
+      "property-based testing (Hypothesis) over every run-time builtin exception class x per-class argument strategies x "
+      "16 switch settings, custom classes in imported / importable / unknown modules, and hostile payload fuzzing of the "
+      "receiver; statement-derived oracle with import audit hook and constructor canaries",
+      "Exceptions are raised inside a real handler and caught at a real requester; class, except-clause behaviour, "
+      "arguments, public data attributes, absence of private ones and traceback/version disclosure are compared with "
+      "what the statement prescribes; crafted records and arbitrary serializable values are fed to the receiver with "
+      "canaries on imports, constructors and os.system.",
+      "One interpreter hosts both peers; 'not yet imported' is simulated by a class naming an importable module.",
+      "DESIGN.md §4 C09")
+
 NOT_YET = "check not built yet in this revision (see DESIGN.md §8 build order)"
 
 
